@@ -311,6 +311,12 @@ class Model:
             if len(inner) > 1:
                 out.append([inner[0], inner[1]])
             out.extend([[x] for x in inner[1:budget]])
+            # two elements that differ only in one list of doubles being a proper prefix of the
+            # other (distinct set members that a prefix-blind order would merge)
+            pair = self.prefix_pair(dt[k]["itemType"])
+            if pair is not None and depth <= 1:
+                out.append([pair[0], pair[1]])
+                out.append([pair[1], pair[0]])
             return out
         if k == "map":
             keys = self.key_docs(dt["map"]["keyType"])
@@ -364,6 +370,46 @@ class Model:
             return out
         return self.leaf_docs(k, t)
 
+    def prefix_pair(self, t, depth=0):
+        """two valid documents of t that are equal except that one list<double> inside is a
+        proper prefix of the other; None if t holds no such list"""
+        if depth > 4:
+            return None
+        k = self.kind(t)
+        dt = self.deref(t)
+        if k == "list":
+            it = dt["list"]["itemType"]
+            if self.kind(it) == "double":
+                return ([1.0], [1.0, 2.0])
+            p = self.prefix_pair(it, depth + 1)
+            return None if p is None else ([p[0]], [p[1]])
+        if k == "optional":
+            return self.prefix_pair(dt["optional"]["itemType"], depth + 1)
+        if k == "map":
+            p = self.prefix_pair(dt["map"]["valueType"], depth + 1)
+            if p is None:
+                return None
+            key = self.key_docs(dt["map"]["keyType"])[0]
+            return ({key: p[0]}, {key: p[1]})
+        if k == "object":
+            d = self.definition(t)
+            for f in d["fields"]:
+                p = self.prefix_pair(f["type"], depth + 1)
+                if p is not None:
+                    base = self._min_object(t, depth + 1)
+                    a, b = dict(base), dict(base)
+                    a[f["fieldName"]], b[f["fieldName"]] = p
+                    return (a, b)
+            return None
+        if k == "union":
+            d = self.definition(t)
+            for f in d["union"]:
+                p = self.prefix_pair(f["type"], depth + 1)
+                if p is not None:
+                    n = f["fieldName"]
+                    return ({"type": n, n: p[0]}, {"type": n, n: p[1]})
+        return None
+
     def _min_object(self, t, depth):
         d = self.definition(t)
         out = {}
@@ -407,8 +453,8 @@ class Model:
                 out.append((rep, "%s: %s where %s is required" % (path, name, k)))
         # (2) type-specific malformed values
         special = {
-            "integer": [2**31, -2**31 - 1],
-            "safelong": [2**53, -(2**53)],
+            "integer": [2**31, -2**31 - 1, 2**32, 2**32 + 5, 2**63, 2**64 - 1, -2**63],
+            "safelong": [2**53, -(2**53), 2**63 - 1, 2**63, 2**64 - 1, 2**64 - 5, -2**63],
             "uuid": ["not-a-uuid", "01234567-89ab-cdef-fedc-ba987654321", "g1234567-89ab-cdef-fedc-ba9876543210"],
             "rid": ["ri.bad", "ri.A.b.c.d", "ri.a.b.c.", "x.a.b.c.d"],
             "datetime": ["2020-13-01T00:00:00Z", "2020-01-01", "yesterday"],
